@@ -11,6 +11,7 @@ uint64_t vm_nondet(void);                       /* arbitrary 64-bit value */
 void vm_progress(void);                         /* call after every completed API operation (resets the spin budget) */
 uint64_t vm_self(void);                         /* thread / fiber index 1..N (0 = init) */
 void vm_fence(void);
+void vm_spin(void);                            /* await-type retry point: bounded by the endgame protocol */
 #ifdef __cplusplus
 }
 #endif
